@@ -132,7 +132,7 @@ def run_property(prop, tier, jobs, level_note='', assumptions=(), outside=(), wo
         if j.get('validate', True):
             for s in a['samples'][:3]:
                 samples.append((j, s))
-    sres = replay_batch([{'job': j, 'values': s['values'], 'choices': s['choices']} for j, s in samples])
+    sres = replay_batch([{'job': j, 'values': s['values'], 'choices': s['choices'], 'apply_known': prop} for j, s in samples])
     validated = 0; mismatches = []
     for (j, s), r in zip(samples, sres):
         if r.get('error') or r.get('findings') or not r.get('ok', True):
